@@ -83,6 +83,20 @@ def main():
     out["caught_by"] = [p for p, r in out["checks"].items() if r["exit"] == 1]
     dst = os.path.join(ROOT, "seeded", name)
     os.makedirs(dst, exist_ok=True)
+    # keep the history: a change the first version of a check missed stays marked as such
+    prev_path = os.path.join(dst, "meta.json")
+    if os.path.exists(prev_path):
+        try:
+            prev = json.load(open(prev_path))
+            hist = prev.get("history", [])
+            hist.append({"validated_at": prev.get("validated_at"), "repo_head": prev.get("repo_head"), "caught_by": prev.get("caught_by"),
+                         "checks": {k: v.get("exit") for k, v in prev.get("checks", {}).items()}})
+            out["history"] = hist
+            for k in ("repo_tests_with_change", "repo_tests_pass"):
+                if k not in out and k in prev:
+                    out[k] = prev[k]
+        except Exception:
+            pass
     shutil.copy(patch, os.path.join(dst, "patch.diff"))
     shutil.copy(os.path.join(seed, "demo.py"), os.path.join(dst, "demo.py"))
     json.dump(out, open(os.path.join(dst, "meta.json"), "w"), indent=1)
